@@ -4,7 +4,7 @@ import ast
 from ..repo import AnalysisError
 from ..report import Ob, RuleSpec
 from ..astutil import (src, flat_guards, calls_in, call_name, kwarg, const_value,
-                       iter_own_nodes, ancestors, is_within)
+                       iter_own_nodes, ancestors, is_within, names_in, attr_chain)
 from ..cfg import cfg_of, Prov
 from ..irwrites import closure_effects, IR_MODULES
 from .. import variants as V
@@ -410,6 +410,27 @@ def r7_feasibility_shape(repo):
         ok3 = ok3 and any(const_value(s_.value, 1) is False for s_ in sets) and \
             any("assigned_t" in src(s_.value) and "n.t ==" in src(s_.value) for s_ in sets) and \
             any("removed_decls" in src(s_.value) and "not in" in src(s_.value) for s_ in sets)
+        # the search starts at each type variable of the call (the dfs is per type variable, not per call node: from
+        # the call node every sibling type variable's type is reachable as well)
+        inner = [x for x in ast.walk(v2) if isinstance(x, ast.For) and x is not v2 and isinstance(x.target, ast.Name)
+                 and graph in names_in(x.iter)]
+        ok4 = False
+        if len(dfs2) == 1 and len(dfs2[0].args) == 2 and inner:
+            start = dfs2[0].args[1]
+            root, _path = attr_chain(start)
+            roots = {root}
+            if root is not None and root != inner[0].target.id:
+                try:
+                    for _d, v, _k in cfg_of(fn).defs_reaching(root, start):
+                        if isinstance(v, ast.AST):
+                            roots |= names_in(v)
+                except AnalysisError:
+                    pass
+            ok4 = is_within(dfs2[0], inner[0]) and inner[0].target.id in roots
+        obs.append(Ob("C03-R7", "is_combination_feasible:type-argument-search-starts-at-each-type-variable", _w(f, v2), ok4,
+                      "the reachability search of the type-argument verification must start at the type variable being "
+                      "verified (inside the loop over the call node's type variables), not at the call node, from which "
+                      "the types of all sibling type variables are reachable too"))
         obs.append(Ob("C03-R7", "is_combination_feasible:omitted-type-argument-still-reaches-its-assigned-type", _w(f, v2), ok3,
                       "for every omitted type argument the corresponding type variable must still reach a type node equal to "
                       "the assigned type that does not hang off a declaration whose type was removed too; otherwise False"))
